@@ -20,6 +20,7 @@ REGISTRY = {
     "C08": ("model_checking", ["bloomfam", "cuckoo"]),
     "C09": ("model_checking", ["expanding"]),
     "C10": ("model_checking", ["expanding"]),
+    "C11": ("fault_enumeration", ["ondisk"]),
     "C12": ("model_checking", ["bloomfam", "countmin"]),
     "C13": ("model_checking", ["bloomfam", "countmin"]),
     "C14": ("model_checking", ["bloomfam", "countmin", "qf", "cuckoo", "expanding"]),
